@@ -46,6 +46,99 @@ type skel struct {
 	names      map[types.Object]string // Lean name per Go object (shadowing-safe)
 	used       map[string]int
 	ndefer     int
+
+	// unexported helper functions of the package called from the rendered function: each is rendered
+	// once as a local function (`let h_f := fun … (w : World) => …` in front of the body), so that
+	// unfolding the rendering unfolds the helpers too.  paramType maps a Go parameter type to Lean.
+	hs        *helperSet
+	paramType func(types.Type) string
+	ncond     int
+}
+
+type helperSet struct {
+	names   map[*types.Func]string
+	nres    map[*types.Func]int
+	prelude []string
+	busy    map[*types.Func]bool
+}
+
+func newHelperSet() *helperSet {
+	return &helperSet{names: map[*types.Func]string{}, nres: map[*types.Func]int{}, busy: map[*types.Func]bool{}}
+}
+
+// helperCall renders a call of an unexported, receiver-less function of the same package whose
+// parameters have types the family knows and whose results are (), (error), (bool) — or (string,
+// error) in a family with pair results.  The helper's body is rendered by the same translator.
+func (s *skel) helperCall(c *ast.CallExpr) (term string, nres int, ok bool) {
+	if s.hs == nil || s.paramType == nil {
+		return "", 0, false
+	}
+	id, isID := c.Fun.(*ast.Ident)
+	if !isID {
+		return "", 0, false
+	}
+	fn, isFn := s.p.TypesInfo.Uses[id].(*types.Func)
+	if !isFn || fn.Pkg() != s.p.Types || fn.Exported() {
+		return "", 0, false
+	}
+	sig := fn.Type().(*types.Signature)
+	if sig.Recv() != nil || sig.Variadic() || sig.Params().Len() != len(c.Args) {
+		return "", 0, false
+	}
+	var args []string
+	for _, a := range c.Args {
+		v, err := s.expr(a, "")
+		if err != nil {
+			return "", 0, false
+		}
+		args = append(args, paren(v))
+	}
+	if name, done := s.hs.names[fn]; done {
+		return fmt.Sprintf("%s %s w", name, strings.Join(args, " ")), s.hs.nres[fn], true
+	}
+	if s.hs.busy[fn] {
+		return "", 0, false
+	}
+	fd := funcDecl(s.p, fn.Name())
+	if fd == nil || fd.Body == nil || len(fd.Body.List) == 0 {
+		return "", 0, false
+	}
+	h := &skel{p: s.p, fn: fd, callHook: s.callHook, exprHook: s.exprHook, stmtHook: s.stmtHook, nested: s.nested, bindDefers: s.bindDefers,
+		hs: s.hs, paramType: s.paramType, ndefer: 100 * (len(s.hs.names) + 1)}
+	res := sig.Results()
+	switch {
+	case res.Len() == 0:
+	case res.Len() == 1 && res.At(0).Type().String() == "error":
+		h.nresults, h.resErr = 1, true
+	case res.Len() == 1 && res.At(0).Type().String() == "bool":
+		h.nresults, h.resBool = 1, true
+	case res.Len() == 2 && s.resTwo && res.At(0).Type().String() == "string" && res.At(1).Type().String() == "error":
+		h.nresults, h.resTwo = 2, true
+	default:
+		return "", 0, false
+	}
+	var params []string
+	for _, f := range fd.Type.Params.List {
+		lt := s.paramType(s.p.TypesInfo.TypeOf(f.Type))
+		if lt == "" {
+			return "", 0, false
+		}
+		for _, n := range f.Names {
+			params = append(params, fmt.Sprintf("(%s : %s)", h.ident(n), lt))
+		}
+	}
+	s.hs.busy[fn] = true
+	h.stmts(fd.Body.List, 3, nil)
+	delete(s.hs.busy, fn)
+	if len(h.notes) > 0 {
+		s.notes = append(s.notes, h.notes...)
+		return "", 0, false
+	}
+	name := "h_" + leanTargetIdent(fn.Name())
+	s.hs.prelude = append(s.hs.prelude, fmt.Sprintf("  let %s := fun %s (w : World) =>  -- func %s\n%s", name, strings.Join(params, " "), fn.Name(), h.b.String()))
+	s.hs.names[fn] = name
+	s.hs.nres[fn] = h.nresults
+	return fmt.Sprintf("%s %s w", name, strings.Join(args, " ")), h.nresults, true
 }
 
 // ident returns the Lean name of a Go identifier.  The first object with a given name keeps the
@@ -429,6 +522,9 @@ func (s *skel) call(c *ast.CallExpr) (term string, nres int, err error) {
 			}
 		}
 	}
+	if term, nres, ok := s.helperCall(c); ok {
+		return term, nres, nil
+	}
 	return "", 0, unsupportedExpr{exprText(c)}
 }
 
@@ -559,6 +655,21 @@ func (s *skel) stmts(list []ast.Stmt, indent int, defers []string) {
 			return
 		}
 		c, err := s.cond(x.Cond)
+		if err != nil {
+			// `if helper(args) {` / `if !helper(args) {` with a helper that steps the world: evaluate it first
+			inner, neg := ast.Unparen(x.Cond), false
+			if u, isNot := inner.(*ast.UnaryExpr); isNot && u.Op == token.NOT {
+				inner, neg = ast.Unparen(u.X), true
+			}
+			if call, isCall := inner.(*ast.CallExpr); isCall {
+				if term, nres, ok := s.helperCall(call); ok && nres == 1 && s.typeOf(call) != nil && s.typeOf(call).String() == "bool" {
+					s.ncond++
+					cv := fmt.Sprintf("cnd%d", s.ncond)
+					s.line(indent, "let (%s, w) := %s  -- %s", cv, term, exprText(call))
+					c, err = fmt.Sprintf("(%s = %v)", cv, !neg), nil
+				}
+			}
+		}
 		if err != nil {
 			s.opaque(indent, x, err.Error())
 			s.stmts(rest, indent, defers)
